@@ -30,16 +30,17 @@ META = {
              'x_gas = K x_liq, component material balance, row sums 1 - beta g and 1 + (1-beta) g, mole fractions in '
              '[0,1], phase masses non-negative and summing to the feed for every component incl. removed zero '
              'components and single-phase rows, reported K = x_gas/x_liq, isofugacity at a fixed point of the K '
-             'update.  Two literal readings are proved FALSE with witnesses (absent-phase row of gas_liq_eq does not '
-             'sum to one; back-conversion fails when the first non-zero component has K = 1) and the witnesses are '
-             'replayed on the real code.  The model is tied to /repo by value correspondence (incl. the iteration '
+             'update.  The literal reading "both rows of gas_liq_eq sum to one" is proved FALSE with a witness (the absent-'
+             'phase row does not) and the witness is replayed on the real code; the gas-mole formula used before commit '
+             '87c9b6c is proved wrong for K_first = 1 and that situation is searched for on the real code in every run.  The model is tied to /repo by value correspondence (incl. the iteration '
              'trace); the property predicates are evaluated on the real outputs for every generated feed.'),
     'note': ('Trusted: Lean kernel + 3 standard axioms; the hand transcription Model/Flash.lean (validated by the '
              'correspondence run on every case); real arithmetic as stand-in for IEEE doubles; the harness.  The '
              'equation of state is a parameter of the model (not modelled, not verified here).  NOT proved, only '
              'tested on the real code: convergence of the loops (small residual at exit), termination, stability of '
-             'single-phase results (tangent-plane distance at gas-like, liquid-like and 20 random trial '
-             'compositions), placement of a single-phase feed in the row of the lower-Gibbs-energy root, '
+             'single-phase results (tangent-plane distance at the Wilson gas-like and liquid-like trial compositions, at 15 '
+             'iterates of Michelsen\'s fixed-point map from each of them, and at 20 random trial compositions, all with '
+             'FluidMixture.fugacity), placement of a single-phase feed in the row of the lower-Gibbs-energy root, '
              'isofugacity of the converged real outputs (tolerance 2e-4).'),
     'technique': 'Lean 4 proof over a hand-written executable model + differential execution against the real code + predicates on real outputs',
 }
@@ -50,9 +51,10 @@ RULE = ('phase-split solve: n = 1..7, z Dirichlet(0.2|1|3) (10% with an exact ze
         'sum z K = 1 exactly), random molar masses in half of the cases; flash: 1..7 distinct database compounds other '
         'than water and hydrogen (60% forced to contain a light gas and a heavier compound), Dirichlet mass fractions, '
         'exact zero masses with probability 0.15 per component in half of the feeds, total mass log-uniform 1e-6..1e2 kg, '
-        'T uniform 270-420 K, P log-uniform (70%) or uniform 1e5-5e7 Pa, each feed also re-run with the K of a '
-        'neighbouring state as warm start; targeted cases: pure compounds, feeds whose first component has K = 1 '
-        '(bisection in P), states next to a phase boundary (bisection in P).  A case is non-trivial when it is '
+        'T uniform 270-420 K, P log-uniform (70%) or uniform 1e5-5e7 Pa, 35-50% of the feeds re-run at the same or a '
+        'neighbouring state with the K vector the code returned as warm start; targeted cases: pure compounds, dense '
+        'supercritical mixtures of O2/Ar/N2/CO/CH4 at 2-50 MPa, feeds whose first component has K = 1 (bisection in P), '
+        'states next to a phase boundary (bisection in P between a one-phase and a two-phase outcome).  A case is non-trivial when it is '
         'distinct (composition, masses, T, P rounded to 12 digits)')
 LEVEL_NOTE = ('theorems over the reals about a hand-written model of the flash orchestration, tied to /repo by value '
               'correspondence on every generated case; floating point, the equation of state and the convergence of '
@@ -62,7 +64,19 @@ FUEL = 400                # iteration budget given to the model; the real loop n
 TPD_NEG = 1e-7            # a tangent-plane distance below -TPD_NEG is a stability failure (flash tolerance squared, rounded up)
 Z_IDEAL = 0.95            # "near-ideal compressibility"
 PR_LOW = 0.2              # "low reduced pressure" (pseudo-critical pressure = mole-fraction mean of Pc)
-EXCLUDE = ('hydrogen',)   # liquid root below the co-volume (a C01 matter) makes its fugacities NaN everywhere
+EXCLUDE = ()
+
+
+EXPECTED_THEOREMS = [
+    'rr_step_preserves_bracket', 'rr_loop_preserves_bracket', 'rr_initial_bracket', 'rr_beta_mem', 'rr_beta_in_bracket',
+    'rr_denominators_pos', 'rr_denominators_pos_at_result', 'rr_xgas_eq_K_xliq', 'rr_xgas_eq_K_xliq_component',
+    'rr_material_balance', 'rr_material_balance_component', 'rr_sums', 'rr_sums_dev_le_residual', 'rr_present_row_sums_to_one',
+    'rr_both_rows_sum_to_one_partial', 'rr_not_both_rows_sum_to_one', 'rr_rows_nonneg', 'rr_rows_le_one', 'rr_subcooled',
+    'rr_superheated', 'rr_newton_exit_residual_partial', 'rr_exit_increment_small', 'feed_moleFrac_isComposition',
+    'zero_components_reinserted', 'masses_conserved', 'flash_masses_conserved', 'single_phase_masses', 'old_first_component_formula',
+    'label_from_last_beta', 'equilMMEnd_single_phase', 'equilMMEnd_two_phase', 'equilMMEnd_converged_single', 'single_phase_rows',
+    'reported_K_is_ratio', 'isofugacity_at_fixed_point', 'witness_rows_are_rr_solution',
+]
 
 
 def audit_files():
@@ -125,7 +139,7 @@ def rr_fixed_cases():
 
 def gen_rr(ctx):
     r = ctx.rng
-    n_cases = ctx.n(6000, 150000)
+    n_cases = ctx.n(6000, 200000)
     cases = rr_fixed_cases()
     while len(cases) < n_cases:
         n = r.randint(1, 7)
@@ -479,7 +493,7 @@ def eval_feed(job):
 
 def gen_feeds(ctx):
     r = ctx.rng
-    n = ctx.n(1000, 6000)
+    n = ctx.n(1000, 10000)
     jobs = []
     # pure compounds (single-component feeds are a fixed share: they exercise both clean-up branches)
     pool = scen_mix.nonaqueous(EXCLUDE)
@@ -564,7 +578,7 @@ def check_feed(ctx, res, lines, line_owner):
             lines.append(req('Flash.equilMMEnd', zred, conv, ss['xi'][0], ss['xi'][1], ss['beta'], knan, [] if knan else ss['K']))
             line_owner.append((res, 'mm-end'))
         knan = 1 if np.isnan(mmr['K'][0]) else 0
-        lines.append(req('Flash.equilibriumPost', m, M, mmr['xi'][0], mmr['xi'][1], knan, [] if knan else mmr['K']))
+        lines.append(req('Flash.equilibriumPost', m, M, mmr['xi'][0], mmr['xi'][1], mmr['beta'], knan, [] if knan else mmr['K']))
         line_owner.append((res, 'post'))
     if rec.get('gle') is not None and np.all(np.isfinite(rec['gle']['K'])) and np.all(np.array(rec['gle']['K']) > 0.):
         g = rec['gle']
@@ -869,12 +883,12 @@ def bisect_P(f, lo, hi, nmax=200):
 
 
 def run_targeted(ctx, dbm):
-    """(1) the first non-zero component has K = 1 (bisection in P on the real code): replay of the Lean witness
-    masses_not_conserved_when_first_K_is_one; (2) the same witness pushed through the real back-conversion lines with
-    a stubbed solver; (3) states next to a phase boundary"""
+    """(1) the first non-zero component has K = 1 (bisection in P on the real code): the situation in which the gas-mole
+    formula used before commit 87c9b6c failed (Lean: old_first_component_formula); (2) the rows of that Lean witness pushed
+    through the real back-conversion lines with a stubbed solver; (3) states next to a phase boundary"""
     r = ctx.rng
     t_start, t_max, call_budget = time.time(), ctx.n(25., 420.), ctx.n(1.0, 3.0)
-    # ---- (2) the Lean witness through the real lines 700-721 (equil_MM stubbed to return the witness rows) ------------
+    # ---- (2) z = (1/3,1/3,1/3), K = (1,2,1/2), beta = 1/2 through the real lines 700-721 (equil_MM stubbed) ----------------
     fm = _fm(['methane', 'ethane', 'propane'])
     saved = dbm.equil_MM
     try:
@@ -883,13 +897,17 @@ def run_targeted(ctx, dbm):
             mm, xi, K = fm.equilibrium(fm.M.copy(), 300., 1e6)
     finally:
         dbm.equil_MM = saved
-    bad = not np.all(np.isfinite(mm)) or not np.allclose(mm.sum(axis=0), fm.M, rtol=1e-9)
-    ctx.oblige('witness masses_not_conserved_when_first_K_is_one reproduced on the real back-conversion lines (equil_MM stubbed with the witness rows): masses are %s'
-               % ('NaN' if not np.all(np.isfinite(mm)) else 'not conserved' if bad else 'conserved'), bad, repr(mm.tolist()))
+    good = bool(np.all(np.isfinite(mm))) and bool(np.all(mm >= 0.)) and bool(np.allclose(mm.sum(axis=0), fm.M, rtol=1e-12, atol=0.))
+    ctx.oblige('two-phase rows whose first component has K = 1 (z = (1/3,1/3,1/3), K = (1,2,1/2), beta = 1/2; Lean: old_first_component_formula) '
+               'pushed through the real back-conversion lines of FluidMixture.equilibrium conserve every component', good, repr(mm.tolist()))
+    if not good:
+        ctx.violation('ng-first-component-K=1', 'the back-conversion of FluidMixture.equilibrium does not conserve mass for two-phase rows whose first '
+                      'component has K = 1 (equil_MM stubbed to return x_gas = (1/3,4/9,2/9), x_liq = (1/3,2/9,4/9), beta = 1/2)',
+                      {'composition': ['methane', 'ethane', 'propane'], 'm': fm.M.tolist(), 'T': 300., 'P': 1e6, 'K0': None, 'masses': mm.tolist()})
     # ---- (1) real states with K_first = 1 -----------------------------------------------------------------------------
     feeds = [(['propane', 'methane', 'n-decane'], [0.2, 0.3, 0.5], 320.)]
     mids = ['propane', 'n-butane', 'isobutane', 'n-pentane', 'ethane', 'carbon_dioxide', 'hydrogen_sulfide']
-    for _ in range(ctx.n(1, 12)):
+    for _ in range(ctx.n(2, 16)):
         mid = r.choice(mids)
         light = r.choice([c for c in ('methane', 'nitrogen', 'ethane') if c != mid])
         heavy = r.choice(['n-decane', 'n-heptane', 'toluene', 'n-hexane', 'benzene'])
@@ -949,7 +967,7 @@ def run_targeted(ctx, dbm):
     # ---- (3) next to a phase boundary: bisection in P between a one-phase and a two-phase outcome ------------------------
     jobs = []
     tries = 0
-    while len(jobs) < ctx.n(6, 120) and tries < ctx.n(40, 800) and time.time() - t_start < t_max:
+    while len(jobs) < ctx.n(16, 240) and tries < ctx.n(60, 1200) and time.time() - t_start < t_max:
         tries += 1
         names = scen_mix.pick_mixture(r, 2, 5, EXCLUDE, want_light=True)
         fm = _fm(names)
@@ -1015,6 +1033,9 @@ def replay(ctx, path):
 def run(ctx, lean_ok):
     warnings.simplefilter('ignore')
     from tamoc import dbm
+    if lean_ok and ctx.theorems:
+        missing = [t for t in EXPECTED_THEOREMS if 'TamocV.Props.C02.' + t not in ctx.theorems]
+        ctx.oblige('all %d expected property theorems are present in TamocV.Props.C02' % len(EXPECTED_THEOREMS), not missing, 'missing: %r' % missing)
     t = [time.time()]
     run_rr(ctx, lean_ok, dbm)
     t.append(time.time())
